@@ -42,6 +42,19 @@ pub fn judge(case: &Case) -> Outcome {
             }
             evals += 2;
         }
+        // the optimiser reorders and merges operands too (shake sorts searches and moves nested
+        // blocks, matrix orders cells by column): in a rule without any negation the truth of
+        // every and/or, and so the verdict, has to survive that as well
+        if case.extra.get("negation_free").and_then(|m| m.as_bool()).unwrap_or(false) && v != vo {
+            let i = v.iter().zip(vo.iter()).position(|(x, y)| x != y).unwrap_or(0);
+            return Outcome::Violation(format!(
+                "doc #{i} {}: negation-free rule (variant #{ri}) gives {} as loaded but {} after the optimiser reordered / merged its operands:\n{}",
+                case.docs[i].show(),
+                v[i],
+                vo[i],
+                text
+            ));
+        }
         match &base {
             None => base = Some((v, vo)),
             Some((b, bo)) => {
@@ -369,7 +382,9 @@ pub fn run(tier: &str, seed: u64) -> i32 {
         the mappings of a sequence, the entries of a mapping (at any nesting level) - is put through every \
         permutation (<= 4 operands) or 24 sampled ones; up to 8 other positions are reversed one at a time; and all \
         positions are shuffled together three times. Oracle: every variant loads and gives the original's verdict \
-        on every document, unoptimised and with the default switches. Non-trivial: the documents give both \
+        on every document, unoptimised and with the default switches; for rules without any negation the \
+        default-optimised rule must also agree with the rule as loaded (the optimiser reorders and merges operands \
+        too). Wide sequences of 100-380 mappings are reversed, rotated and shuffled. Non-trivial: the documents give both \
         verdicts, or the chosen position mixes batch kinds (string / i-string / regex / i-regex / other) or \
         fields; distinct by rule text."
         .into();
@@ -432,11 +447,49 @@ pub fn run(tier: &str, seed: u64) -> i32 {
                 c.rules.push(finish(v).text());
             }
             c.docs = recipes.iter().map(|r| gen::build_doc(&orig, r)).collect();
-            c.extra = serde_json::json!({"mixed": mixed, "variants": vars.len()});
+            c.extra = serde_json::json!({"mixed": mixed, "variants": vars.len(), "negation_free": neg.is_none()});
             vec![c]
         },
         judge,
         |_, _| {},
+    );
+    // wide sequences (hundreds of mappings: matrix rows, column keys beyond one byte): the order of
+    // the mappings is reversed, rotated and shuffled
+    gen::drive(
+        &mut report,
+        91,
+        if tier == "thorough" { 400 } else { 40 },
+        || (gen::rule_wide(), prop::collection::vec(any::<u16>(), 24), any::<u64>()),
+        |(rule, picks, s): &(RuleSpec, Vec<u16>, u64)| {
+            if matches!(rule.cond, CondSpec::Not(_)) {
+                return vec![];
+            }
+            let blocks = match &rule.idents[0].1 {
+                Body::Seq(b) => b.clone(),
+                _ => return vec![],
+            };
+            let with = |b: Vec<Block>| RuleSpec { idents: vec![(rule.idents[0].0.clone(), Body::Seq(b))], cond: rule.cond.clone() };
+            let n = blocks.len();
+            let mut orders: Vec<Vec<usize>> = vec![(0..n).rev().collect(), (0..n).map(|i| (i + n / 2) % n).collect()];
+            for k in 0..3u64 {
+                let mut p: Vec<usize> = (0..n).collect();
+                for i in (1..n).rev() {
+                    let j = (mix(*s ^ k, i as u64) % (i as u64 + 1)) as usize;
+                    p.swap(i, j);
+                }
+                orders.push(p);
+            }
+            let mut c = Case::new("c17.permute");
+            c.rules.push(rule.text());
+            for o in orders {
+                c.rules.push(with(o.iter().map(|i| blocks[*i].clone()).collect()).text());
+            }
+            c.docs = gen::wide_docs(rule, picks);
+            c.extra = serde_json::json!({"mixed": true, "variants": 5, "wide": true, "negation_free": true});
+            vec![c]
+        },
+        judge,
+        |_, rep| rep.label("wide_sequence"),
     );
     report.finish()
 }
